@@ -357,6 +357,9 @@ func init() {
 				Desc: "the link/href special case under ten rel values"},
 			{Pkg: "template", Name: "vHarness_C04_joinnames", Quick: []ParamRange{{"attr", 0, 1}, {"n", 1, 1}, {"na", 0, 2}, {"nb", 0, 2}}, Thorough: []ParamRange{{"attr", 0, 1}, {"n", 1, 2}, {"na", 0, 2}, {"nb", 0, 2}}, Reach: []string{"joined"},
 				Desc: "conditional names: join of two contexts with symbolic names and accumulated names lists keeps every possible element / attribute name (and the list invariant)"},
+			{Pkg: "template", Name: "vHarness_C04_linkrel", Quick: []ParamRange{{"n0", 0, 1}, {"n1", 0, 4}, {"n2", 0, 1}, {"n3", 0, 5}}, Thorough: []ParamRange{{"n0", 0, 2}, {"n1", 0, 5}, {"n2", 0, 2}, {"n3", 0, 5}}, Reach: []string{"accepted", "url-allowed"},
+				Filter: func(p map[string]int) bool { return p["n0"]+p["n1"]+p["n2"]+p["n3"] <= 6 && (p["n1"] == 4 || p["n3"] >= 4 || p["n0"]+p["n1"]+p["n3"] <= 3) },
+				Desc: "link rel chosen by a branch: the real escaper over <link rel=\"T0{{if}}T1{{else}}T2{{end}}T3\" href=\"{{.}}\"> with symbolic texts over [a-z -] and space; href accepts a plain string only if the emitted rel value holds a reviewed URL-compatible token on both branches"},
 			{Pkg: "template", Name: "vHarness_C04_condnames", Quick: []ParamRange{{"swap", 0, 1}, {"le", 1, 6}, {"la", 2, 6}}, Thorough: []ParamRange{{"swap", 0, 1}, {"le", 1, 8}, {"la", 2, 10}}, Reach: []string{"accepted", "rejected"},
 				Desc: "attribute value with a conditional element name (two symbolic alternatives): accepted => both alternatives are listed for the attribute with the same reviewed class"},
 			{Pkg: "template", Name: "vHarness_C04_voidnames", Quick: []ParamRange{{"v", 0, 3}, {"o", 0, 3}, {"swap", 0, 1}, {"n", 1, 2}}, Reach: []string{"closed"},
@@ -451,6 +454,12 @@ func init() {
 			{Pkg: "template", Name: "vHarness_C01_loopexit", Quick: []ParamRange{{"kind", 0, 1}, {"prefix", 0, 5}, {"n0", 0, 0}, {"n1", 0, 3}, {"n2", 0, 1}, {"n3", 0, 1}, {"n4", 0, 0}, {"nd", 1, 1}},
 				Thorough: []ParamRange{{"kind", 0, 1}, {"prefix", 0, 11}, {"n0", 0, 1}, {"n1", 0, 3}, {"n2", 0, 2}, {"n3", 0, 1}, {"n4", 0, 1}, {"nd", 1, 2}}, Reach: []string{"rejected"}, Eager: true,
 				Desc: "loop exits: P T0 {{range .}}T1{{if .}}{{break|continue}}{{end}}T2{{end}} T3 {{.}} T4 - the escaper refuses the node (panic, nothing executed) or the output after an early exit has the same token stream for an inert and a symbolic data value"},
+			{Pkg: "template", Name: "vHarness_C01_call", Quick: []ParamRange{{"prefix", 0, 6}, {"rec", 0, 1}, {"mid", 0, 1}, {"n0", 0, 0}, {"n1", 0, 1}, {"n2", 0, 1}, {"n5", 0, 1}, {"n3", 0, 0}, {"n4", 0, 2}, {"nd", 1, 1}},
+				Thorough: []ParamRange{{"prefix", 0, 6}, {"rec", 0, 1}, {"mid", 0, 1}, {"n0", 0, 1}, {"n1", 0, 2}, {"n2", 0, 2}, {"n5", 0, 1}, {"n3", 0, 1}, {"n4", 0, 2}, {"nd", 1, 2}}, Reach: []string{"accepted", "rejected"}, Eager: true,
+				Filter: func(p map[string]int) bool {
+					return (p["mid"] == 0 || (p["prefix"] >= 2 && p["prefix"] <= 4)) && p["n0"]+p["n1"]+p["n2"]+p["n5"]+p["n3"]+p["n4"] <= 4
+				},
+				Desc: "composition over template calls: the real escapeTree / computeOutCtx / escapeTemplateBody (derived templates per start context, fixed-point rule for recursion) over main = P T0 {{template \"y\"}} T3 {{.}} T4 and y = T1 [{{if}}{{template \"y\"}}{{end}}] T2 M T5; the output assembled from the trees the escaper produced, for recursion depths 0..2, has the same token stream for an inert and a symbolic data value"},
 			{Pkg: "template", Name: "vHarness_C01_shape", Quick: []ParamRange{{"prefix", 0, 11}, {"n0", 0, 1}, {"n1", 0, 1}, {"n2", 0, 1}, {"n3", 0, 1}, {"n4", 1, 1}, {"nd", 1, 1}},
 				Thorough: []ParamRange{{"prefix", 0, 11}, {"n0", 0, 2}, {"n1", 0, 2}, {"n2", 0, 2}, {"n3", 0, 2}, {"n4", 0, 2}, {"nd", 1, 2}}, Reach: []string{"accepted", "rejected"}, Eager: true,
 				Filter: func(p map[string]int) bool { return p["n0"]+p["n1"]+p["n2"]+p["n3"]+p["n4"] <= 5 },
